@@ -187,7 +187,7 @@ impl Prop for C02Prop {
             }
             return Some(c);
         }
-        let mut c = wf::wf_generate(stream, t, true)?;
+        let mut c = wf::wf_generate_opts(stream, t, true, crate::gen::prog::Opts { typeref_cmp: true, ..Default::default() })?;
         // line-ending variants of the whole file (tokens spanning lines change with it)
         let nl = match t.below(12) {
             0..=2 => "\r\n",
